@@ -3,13 +3,13 @@ META = {'level': 'other', 'assumptions': ['group bucket.upsert: bucket_index_for
 def replay(group, trace):
     """the REAL KademliaTable: a contact refreshed with a shorter deadline and a new address; the node's own id registered"""
     import sys, os
-    if group.replay != 'refresh':
+    if group.replay not in ('refresh', 'closest'):
         return None, 'no native replay for this group'
     root = os.path.dirname(os.path.dirname(os.path.abspath(__file__)))
     sys.path.insert(0, os.path.join(root, 'replay'))
     import replaylib as R
     exe = R.build_full('C07.cpp', with_daemon=False)
-    rc, out = R.run(exe, [], timeout=60)
+    rc, out = R.run(exe, ['closest'] if group.replay == 'closest' else [], timeout=60)
     last = [l for l in out.strip().splitlines() if l.strip()][-1:] or ['']
     return rc == 1, last[0][:400]
 
@@ -28,4 +28,9 @@ def groups(tier):
                   checks=['--bounds-check', '--pointer-check'], defines=['CXX_FIXED_STORAGE', 'CXX_VEC_CAP=6', 'B=3'], replay='refresh',
                   bound='a bucket holding at most 3 contacts (so the 16-contact limit is not reached); contact ids range over 256 values; three representative bucket indices',
                   clause='upsert_bucket: the node itself is never held; only the contact\'s own bucket changes; exactly one entry per id, carrying the newest address and deadline; '
-                         'unexpired others kept, expired dropped')]
+                         'unexpired others kept, expired dropped'),
+            Group('closest.k', 'kad_closest', 'C07/closest.c', entry='h_closest', unwind=6, unwind_by={'KademliaTable__closest_peers#0': 257, 'KademliaTable__xor_distance': 33, 'cxx_memcmp': 33, 'dist_lt': 33, 'h_closest': 33},
+                  extra=['--max-field-sensitivity-array-size', '300'], kind='bounded', backend=['sat', 'cadical'], timeout=1800, checks=['--bounds-check', '--pointer-check'],
+                  defines=['CXX_FIXED_STORAGE', 'CXX_VEC_CAP=6'], replay='closest',
+                  bound='three contacts in three buckets (ids differ in byte 0; target, deadlines, clock, limit <= 4 symbolic)',
+                  clause='closest_peers returns min(limit, n) unexpired contacts in strictly increasing XOR distance, none of the omitted ones closer than a listed one')]
